@@ -3,9 +3,11 @@ NEXT PNext
 CONSTANTS
   W = 2
   KeyList <- SK8
-  Vals = {1, 2}
+  Vals = {1, 2, 3}
   Peers <- P2
   MaxOps = 30
   Depth = 31
+  AliasVal = 3
+  AliasKey <- AK
   HistOn = TRUE
 INVARIANT PEmit
